@@ -28,7 +28,7 @@ LEVEL_NOTE = "Trusted: the strict RTF reader (self-tested on hand-written fragme
 
 A4 = (8.27, 11.69)
 GROUPINGS = ["none", "page_by1", "page_by2", "page_by_newpage_column", "page_by_newpage_firstrow", "subline_by", "subline_by+page_by",
-             "group_by", "group_by+page_by", "group_by_noncontiguous"]
+             "group_by", "group_by+page_by", "group_by_noncontiguous", "group_by2", "group_by2_nulls", "page_by_nulls"]
 
 TABLE_DIMS = {
     "n": [3, 0, 1, 2, 5, 12],
@@ -68,6 +68,7 @@ MULTI_DIMS = {
     "multi_header": ["nested", "flat"],
     "sec_new_page": [False, True],
     "n": [3, 1, 5],
+    "n_last": [None, 0, 1, 7], "n_first": [None, 0, 1],  # row count of the last / first section when it differs from the others
     "cols2": [["s", "i"], ["s"], ["s", "i", "f"]],
     "title": [1, 0, 2], "subline": [False, True],
     "header": ["explicit", "default", "none"],
@@ -151,6 +152,12 @@ def table_spec(c):
         spec["page_by"] = [half]
     elif g == "group_by_noncontiguous":
         spec["group_by"] = [[r % 2 for r in range(n)]]
+    elif g == "group_by2":
+        spec["group_by"] = [half, third]
+    elif g == "group_by2_nulls":  # contiguous keys whose inner level is null on runs of rows: must be accepted
+        spec["group_by"] = [half, [None if (r * 4 // max(n, 1)) % 2 == 0 else r * 4 // max(n, 1) for r in range(n)]]
+    elif g == "page_by_nulls":
+        spec["page_by"] = [[None if r < (n + 1) // 2 else 1 for r in range(n)]]
     ngrp = sum(len(spec.get(k) or []) for k in ("page_by", "subline_by", "group_by"))
     ncol_all = ngrp + len(cols)
     body = {}
@@ -183,7 +190,12 @@ def multi_spec(c):
     secs = []
     for si in range(c["nsec"]):
         cols = c["cols2"] if si == 1 else ["s", "i"]
-        s = {"n": c["n"], "cols": cols, "header": c["header"]}
+        n_sec = c["n"]
+        if si == c["nsec"] - 1 and c.get("n_last") is not None:
+            n_sec = c["n_last"]
+        if si == 0 and c.get("n_first") is not None:
+            n_sec = c["n_first"]
+        s = {"n": n_sec, "cols": cols, "header": c["header"]}
         if si > 0:
             s["section_new_page"] = c["sec_new_page"]
         body = {}
